@@ -59,7 +59,7 @@ def run_model(binp, inputs, limits=None):
 
 
 def run_impl(inputs, parse=False):
-    p = common.vh(["lex"] + ([] if parse else ["noparse"]), input="".join(hx(b) + "\n" for b in inputs), timeout=3000)
+    p = common.vh(["lex"] + (["dump"] if parse == "dump" else [] if parse else ["noparse"]), input="".join(hx(b) + "\n" for b in inputs), timeout=3000)
     outs = [json.loads(l) for l in p.stdout.splitlines() if l.strip()]
     if p.returncode != 0 or len(outs) != len(inputs):
         raise common.StageError("lex-harness-run", "rc=%d got %d of %d: %s" % (p.returncode, len(outs), len(inputs), p.stderr[-1500:]), tree_caused=True)
@@ -151,6 +151,24 @@ def oracle(text_bytes, out, tb):
     return fails
 
 
+def layout_verdict(oa, ob, tb):
+    """oa: result for a text the tokenizer accepts, ob: result for the same lexemes under another layout / keyword case.
+    None = same reading and same parse; else (oracle name, explanation)"""
+    db = decode_canon(ob.get("c") or [])
+    if db["kind"] != "ok":
+        return ("layout_independent", "re-laid-out text is rejected by the tokenizer (%s)" % (db,))
+    if norm_conv(oa, tb) != norm_conv(ob, tb):
+        return ("layout_independent", "kinds/values after token conversion differ: %s vs %s" % (str(norm_conv(oa, tb))[:300], str(norm_conv(ob, tb))[:300]))
+    if oa.get("parse_ok") != ob.get("parse_ok"):
+        return ("layout_independent", "one layout parses, the other is rejected (%s / %s)" % (oa.get("perr"), ob.get("perr")))
+    if oa.get("trees") != ob.get("trees"):
+        xa, xb = oa.get("dumps") or [], ob.get("dumps") or []
+        if xa and [x.upper() for x in xa] == [x.upper() for x in xb]:
+            return ("parse_keyword_spelling", "the trees differ only in the letter case of keyword spellings copied into tree fields")
+        return ("layout_independent", "the parse differs (trees %s / %s)" % (oa.get("trees"), ob.get("trees")))
+    return None
+
+
 def norm_conv(out, tb):
     """converted stream normalised for comparison across layouts: keyword literals upper-cased, compound leftovers split"""
     if out.get("conv") is None:
@@ -167,7 +185,7 @@ def norm_conv(out, tb):
         if " " in v and u in tb.compound:
             for w in u.split(" "):
                 res.append((tb.kw.get(w, 0), w))
-        elif u in tb.kw and ty in tb.kwtypes:
+        elif u in tb.kw and ty not in tb.literal_types:
             res.append((ty, u))
         else:
             res.append((ty, v))
@@ -247,6 +265,8 @@ class TB(lexgen.Tables):
     def __init__(self, t):
         super().__init__(t)
         self.codes = t["codes"]
+        self.literal_types = {self.tt[k] for k in ("Identifier", "DoubleQuotedString", "SingleQuotedString", "String", "Number", "Placeholder",
+                                                   "TripleSingleQuotedString", "TripleDoubleQuotedString", "DollarQuotedString")}
 
 
 # ------------------------------------------------------------------------------------------------
@@ -269,9 +289,10 @@ def witness_check(w, tb):
             if not (d["kind"] == "ok" and d["coms"] and list(d["coms"][0][3][2:]) == w["end"]):
                 fails.append("first comment should end at %s: %s" % (w["end"], d.get("coms", d)))
         elif ch == "same_as":
-            o2 = run_impl([enc(w["other"])], parse=True)[0]
-            if norm_conv(o, tb) != norm_conv(o2, tb) or o.get("parse_ok") != o2.get("parse_ok") or o.get("trees") != o2.get("trees"):
-                fails.append("%r and %r differ only in layout / keyword case but are read or parsed differently" % (w["sql"], w["other"]))
+            o1, o2 = run_impl([enc(w["sql"]), enc(w["other"])], parse="dump")
+            f = layout_verdict(o1, o2, tb)
+            if f and (f[0] != "parse_keyword_spelling" or w.get("strict_case")):
+                fails.append("%r and %r differ only in layout / keyword case but are read or parsed differently: %s" % (w["sql"], w["other"], f[1]))
         elif ch == "ntokens_at_limit":
             pass
     return fails
@@ -296,6 +317,16 @@ def run(tier):
     elif not ok_props:
         rp.violation({"kind": "proof", "theorem": "Props/C04.v", "log": logs["props"][-3000:]}, "props_c04", no_input=True)
 
+    # keywords of the tokenizer's table that the token converter hands to the parser as plain identifiers (COUNT, SUM, ...):
+    # for the parse they are identifiers (function names), so the layout oracle does not re-case them
+    try:
+        kws = sorted(tb.kw)
+        ko = run_impl([enc(k) for k in kws], parse=False)
+        tb.ident_like = {k for k, o in zip(kws, ko) if o.get("conv") and int(o["conv"][0].split(":")[0]) == tb.tt["Identifier"]}
+    except common.StageError as e:
+        return common.stage_fail(rp, e)
+    rp.cov["keywords_converted_to_identifiers"] = sorted(tb.ident_like)
+
     kf = common.known_findings("C04")
     known = [k for k in kf if k["status"] == "known"]
 
@@ -303,7 +334,7 @@ def run(tier):
         """known finding (narrow signature) or violation"""
         for k in known:
             sg = k["signature"]
-            if sg.get("oracle") == fail[0] and sg.get("contains") and enc(sg["contains"]).lower() in text_bytes.lower():
+            if sg.get("oracle") == fail[0] and (not sg.get("contains") or enc(sg["contains"]).lower() in text_bytes.lower()):
                 if k["key"] not in rp.known_hit:
                     rp.known(k["key"], k["what"])
                 return
@@ -431,25 +462,22 @@ def run(tier):
         if r is not None and r != s:
             pairs_l.append((s, r))
     try:
-        lo = run_impl([enc(x) for p2 in pairs_l for x in p2], parse=True)
+        lo = run_impl([enc(x) for p2 in pairs_l for x in p2], parse="dump")
     except common.StageError as e:
         return common.stage_fail(rp, e)
-    nlay = 0
+    nlay, ncase = 0, 0
     for j, (a, b2) in enumerate(pairs_l):
         oa, ob = lo[2 * j], lo[2 * j + 1]
         da, db = decode_canon(oa.get("c") or []), decode_canon(ob.get("c") or [])
         if da["kind"] != "ok":
             continue
         nlay += 1
-        why = None
-        if db["kind"] != "ok":
-            why = "re-laid-out text is rejected by the tokenizer (%s)" % (db,)
-        elif norm_conv(oa, tb) != norm_conv(ob, tb):
-            why = "kinds/values after token conversion differ: %s vs %s" % (str(norm_conv(oa, tb))[:300], str(norm_conv(ob, tb))[:300])
-        elif oa.get("parse_ok") != ob.get("parse_ok") or oa.get("trees") != ob.get("trees"):
-            why = "the parse differs (accepted %s/%s, trees %s/%s)" % (oa.get("parse_ok"), ob.get("parse_ok"), oa.get("trees"), ob.get("trees"))
-        if why:
-            classify("layout", enc(b2), ("layout_independent", why), {"original": a, "relayout": b2})
+        f = layout_verdict(oa, ob, tb)
+        if f and f[0] == "parse_keyword_spelling":
+            ncase += 1
+        if f:
+            classify("layout", enc(b2), f, {"original": a, "relayout": b2})
+    rp.cov["layout_pairs_tree_differs_in_keyword_spelling_only"] = ncase
     rp.cov["layout_pairs"] = nlay
 
     rp.cov["distinct_nontrivial"] = len({b for b, o in zip(inputs, outs) if decode_canon(o.get("c") or []).get("kind") == "ok" and len(decode_canon(o["c"])["toks"]) > 2})
